@@ -43,7 +43,7 @@ func init() {
 		MaxSteps:     200000,
 		YieldFiles:   []string{"cred/manager.go"},
 		QuickRuns:    12000,
-		ThoroughSecs: 600,
+		ThoroughSecs: 400,
 		Rule: "one run = (kind fault 45% | shutdown 35% | power 20%, key size, store configuration, 0-4 initial users, 1-6 API changes with sleeps from {0,1ms,1s,4.999s,5s,5.001s,6s}) " +
 			"plus, for fault/power runs, one fault plan (kind, mutating-operation index 0..13, byte count at 0/1/len-1/len/len+1/arbitrary of a predicted document, restart " +
 			"immediately or at the end) and, for shutdown runs, the change after which and the delay after which the context is cancelled and Stop called; one seeded " +
